@@ -1,6 +1,6 @@
 (* C06 — Table files and archives round-trip any chunk set.  Property theorems only. *)
 From Coq Require Import NArith List Bool Sorting.Permutation Sorting.Sorted.
-From Dolt Require Import Base.Str Gen.C01Consts C01.Model C01.Spec C01.Proofs C06.Model C06.Spec C06.Corr C06.Proofs.
+From Dolt Require Import Base.Str Gen.C01Consts C01.Model C01.Spec C01.Proofs C01.ProofsBytes C01.ProofsSort C01.ProofsTable C06.Model C06.Spec C06.Corr C06.Proofs.
 Import ListNotations.
 Local Open Scope N_scope.
 
@@ -11,18 +11,24 @@ Theorem C06_prolly_bin_search_spec :
 Proof. exact prolly_bin_search_spec. Qed.
 Print Assumptions C06_prolly_bin_search_spec.
 
-(* partial: see C06/Proofs.v for what is missing (byte-level index decode, iterate permutation) *)
-Theorem C06_table_roundtrip_partial :
+(* byte level: the index block of a written table decodes to the index it was written from *)
+Theorem C06_parse_write_table :
+  forall ts rs, valid_tuples ts rs -> table_fits rs ->
+    parse_index (write_table_with ts rs) = Some (build_pindex ts rs).
+Proof. exact parse_write_table. Qed.
+Print Assumptions C06_parse_write_table.
+
+(* full round trip from the bytes; iterate-all returns exactly the stored chunks *)
+Theorem C06_table_roundtrip :
   forall (crc : bytes -> N) (compress : bytes -> bytes) (decompress : bytes -> option bytes),
     (forall d, decompress (compress d) = Some d) ->
     forall ts rs (content : addr -> bytes),
-      valid_tuples ts rs -> distinct_addrs rs ->
-      (forall k, (k < length rs)%nat ->
-         wf_rec crc compress (nth k rs dummy_rec) (content (r_addr (nth k rs dummy_rec)))) ->
-      let t := mkTable (write_table_with ts rs) (build_pindex ts rs) in
-      table_count t = nlen rs /\ table_unc t = total_unc rs
-      /\ (forall h, table_get crc decompress t h = ROk (if in_table rs h then Some (content h) else None))
-      /\ (forall h, table_has t h = in_table rs h)
-      /\ (forall h, lookup (t_ix t) h = lookup_spec rs h).
-Proof. exact table_roundtrip_partial. Qed.
-Print Assumptions C06_table_roundtrip_partial.
+      valid_tuples ts rs -> table_fits rs -> recs_ok crc compress content rs ->
+      exists t, open_table (write_table_with ts rs) = Some t
+        /\ table_count t = nlen rs /\ table_unc t = total_unc rs
+        /\ (forall h, table_get crc decompress t h = ROk (if in_table rs h then Some (content h) else None))
+        /\ (forall h, table_has t h = in_table rs h)
+        /\ (forall h, lookup (t_ix t) h = lookup_spec rs h)
+        /\ table_iterate crc decompress t = ROk (map (chunk_of content) rs).
+Proof. exact table_roundtrip. Qed.
+Print Assumptions C06_table_roundtrip.
